@@ -24,9 +24,15 @@ type listScanner struct {
 	names []string
 	i     int
 	eofs  int
+	calls int
+	hook  func(call int) // called at the start of every Scan
 }
 
 func (s *listScanner) Scan() (*token.Token, token.Position) {
+	if s.hook != nil {
+		s.hook(s.calls)
+	}
+	s.calls++
 	pos := token.Position{Offset: s.i, Line: 1, Column: s.i + 1}
 	if s.i < len(s.types) {
 		t := token.NewToken(s.types[s.i], []byte(s.names[s.i]))
@@ -68,6 +74,25 @@ func (w *worker) run(types []token.Type, names []string) (accepted bool, reds []
 		}
 	}()
 	_, err := w.p.Parse(&listScanner{types: types, names: names})
+	return err == nil, append([]int(nil), w.reds...), ""
+}
+
+// runNested parses (types, names) while a second parser object parses another sequence to its
+// end in the middle of it: between the at-th and the (at+1)-th token handed to w's parser.
+func (w *worker) runNested(types []token.Type, names []string, at int, other *worker, otypes []token.Type, onames []string) (accepted bool, reds []int, perr string) {
+	w.reds = w.reds[:0]
+	defer func() {
+		if r := recover(); r != nil {
+			perr = fmt.Sprint(r)
+		}
+	}()
+	sc := &listScanner{types: types, names: names}
+	sc.hook = func(call int) {
+		if call == at {
+			other.run(otypes, onames)
+		}
+	}
+	_, err := w.p.Parse(sc)
 	return err == nil, append([]int(nil), w.reds...), ""
 }
 
@@ -327,6 +352,44 @@ func main() {
 		judge(w, s)
 	}
 	res.Extra["mutants"] = mut
+	// two parser objects in use at the same time: while one is in the middle of a sentence the
+	// other parses a whole sequence; neither result may change (single goroutine, so what is
+	// observed is object independence, not scheduling)
+	{
+		w2 := newWorker()
+		nested, diff := 0, 0
+		for i := 0; i < 400 && len(sentences) > 1; i++ {
+			a := sentences[r.Intn(len(sentences))]
+			b := sentences[r.Intn(len(sentences))]
+			if i%3 == 0 && len(b) > 1 {
+				b = b[:1+r.Intn(len(b)-1)] // a non-sentence (a proper prefix) as the intruder
+			}
+			conv := func(seq []int) ([]token.Type, []string) {
+				ty := make([]token.Type, len(seq))
+				nm := make([]string, len(seq))
+				for k, x := range seq {
+					ty[k], nm[k] = alphaT[x], alphaN[x]
+				}
+				return ty, nm
+			}
+			at, an := conv(a)
+			bt, bn := conv(b)
+			acc0, red0, _ := w.run(at, an)
+			k := r.Intn(len(a) + 1)
+			acc1, red1, perr := w.runNested(at, an, k, w2, bt, bn)
+			nested++
+			res.Evaluations++
+			if perr != "" || acc0 != acc1 || fmt.Sprint(red0) != fmt.Sprint(red1) {
+				diff++
+				if diff <= 3 {
+					res.Viol(inp.Violation{Kind: "seq", Toks: an, Note: fmt.Sprintf("the result of a parse changes when another parser object parses %v between its tokens %d and %d (accepted alone=%v nested=%v %s)", bn, k, k+1, acc0, acc1, perr)})
+				}
+			} else {
+				res.Nontrivial++
+			}
+		}
+		res.Extra["nested_parses_with_a_second_parser_object"] = nested
+	}
 	// nesting: the only way to make the front end's parse stack deep is bracket nesting in a
 	// lexical pattern (all lists of the grammar are left-recursive). Depths run past the
 	// stack's initial capacity and its first doublings; each sentence is also judged with one
